@@ -176,7 +176,7 @@ def cli_diags_for_state(st, texts, nuri=2):
         names = {}
         for u in range(1, nuri + 1):
             if st[u - 1] != 0:
-                n = os.path.basename(lspdrv.URI[u])
+                n = lspdrv.fname(u)
                 names[n] = u
                 with open(os.path.join(d, n), "w", newline="") as f:
                     f.write(texts[st[u - 1]])
